@@ -128,6 +128,11 @@ func oracleFor(strs []string) string {
 				add("I"+strconv.Itoa(bits), x, strconv.FormatInt(n, 10))
 			}
 		}
+		for _, bits := range []int{8, 16, 32, 64} {
+			if n, err := strconv.ParseUint(x, 0, bits); err == nil {
+				add("U"+strconv.Itoa(bits), x, strconv.FormatUint(n, 10))
+			}
+		}
 		if f, err := strconv.ParseFloat(x, 64); err == nil {
 			if r := ratStr(f); r != "x" {
 				add("F", x, r)
@@ -506,6 +511,8 @@ func run(cases []string) []string {
 			res = runHdr(f[1], f[2])
 		case f[0] == "prop" && len(f) == 3:
 			res = runProp(string(vh.UnHex(f[1])), string(vh.UnHex(f[2])))
+		case f[0] == "cast" && len(f) == 4:
+			res = runCast(f[1], string(vh.UnHex(f[2])))
 		case f[0] == "env" && len(f) == 3:
 			undo := setupEnv(f[1], "-")
 			res = runEnv(string(vh.UnHex(f[2])))
@@ -1334,6 +1341,28 @@ func mutate(e emitter, reg *s.Reg, rootNode *s.Node, base *s.V, prefix s.Path, l
 				}
 				e.emit("ph:"+val.Token(), st.Path, ce, base.ReplaceAt(st.Path, s.Str(ph)))
 			}
+			// a whole-value placeholder resolving to a text around the integer-literal grammar / the width of the option
+			// (fractions, exponents, special floats, out-of-range literals, other bases, separators)
+			for _, text := range phcTexts(n, rnd) {
+				if e.head[0] != "typed" {
+					// a different valid value may change what a constructor does (a schedule of 2^31 steps, a negative
+					// size): whole configurations take refused texts only, component sections also small valid values;
+					// the range boundaries of every width are with the generated struct types and the cast cases
+					small := false
+					valid := false
+					if v, err := strconv.ParseInt(text, 0, 64); err == nil {
+						valid, small = true, v >= 0 && v <= 1000
+					} else if v, err := strconv.ParseUint(text, 0, 64); err == nil {
+						valid, small = true, v <= 1000
+					} else if _, err := time.ParseDuration(text); err == nil {
+						valid, small = true, true
+					}
+					if valid && (!small || e.head[0] != "comp") {
+						continue
+					}
+				}
+				e.emit("phc:"+hexOrDash(text), st.Path, caseEnv{env: map[string]string{envVar: text}}, base.ReplaceAt(st.Path, s.Str("${env:"+envVar+"}")))
+			}
 			// the property file in all the shapes its reader accepts (comments, blank lines, CRLF, no final newline,
 			// repeated keys, look-alike keys, lines without '='), one shape per site drawn from the PRNG
 			if len(lits) > 0 {
@@ -1826,6 +1855,7 @@ func gen(r *vh.Rand, tier string) []string {
 		}
 	}
 	out = append(out, genDirect(r, thorough)...)
+	out = append(out, genCast(r, thorough)...)
 	// D. the option applied to the component: sections decoded through the plugin hook, products searched for what they hold
 	genApp(reg, own, thorough, &out)
 	// E. config struct types drawn by the PRNG
